@@ -16,6 +16,7 @@ import (
 	"sync/atomic"
 	"syscall"
 	"time"
+	"verif/drv"
 
 	"github.com/superfly/litefs"
 	lhttp "github.com/superfly/litefs/http"
@@ -774,8 +775,22 @@ func runC20(c *core.Case) {
 		if isPrimary && c.Index%2 == 0 && !c.Violated() {
 			w.close()
 			w = nil
-			if err := p.Node.Remove("db"); err != nil {
-				c.Violate("C20/final-drop-failed", err.Error(), map[string]any{"recent_requests": recent})
+			// (a deletion does not wait for the lock: while a section started by an
+			// earlier request - a snapshot being streamed, an export - still holds
+			// it the answer is EBUSY, and the application tries again)
+			var derr error
+			for try := 0; try < 400; try++ {
+				if derr = p.Node.Remove("db"); derr == nil || drv.Errno(derr) != syscall.EBUSY {
+					break
+				}
+				time.Sleep(5 * time.Millisecond)
+			}
+			if derr != nil && drv.Errno(derr) == syscall.EBUSY {
+				c.Count("final_drop_stayed_busy", 1)
+				return
+			}
+			if derr != nil {
+				c.Violate("C20/final-drop-failed", derr.Error(), map[string]any{"recent_requests": recent})
 				return
 			}
 			hid := fmt.Sprint(3000000 + c.Rng.IntN(1<<20))
